@@ -393,10 +393,10 @@ func edgeAllowed(b *ssa.BasicBlock, i int, as []Assume) bool {
 
 type PathQuery struct {
 	Fn      *ssa.Function
-	From    ssa.Instruction               // nil: function entry; otherwise search starts after From
-	Target  func(ssa.Instruction) bool    // reaching one of these is a witness
-	Barrier func(ssa.Instruction) bool    // paths through these are cut
-	Assume  []Assume                      // pruned edges
+	From    ssa.Instruction            // nil: function entry; otherwise search starts after From
+	Target  func(ssa.Instruction) bool // reaching one of these is a witness
+	Barrier func(ssa.Instruction) bool // paths through these are cut
+	Assume  []Assume                   // pruned edges
 	EdgeOK  func(b *ssa.BasicBlock, i int) bool
 }
 
